@@ -486,3 +486,25 @@ func (s *Sim) SiteHits() []uint32 { return s.siteHits }
 
 // Decisions returns the number of controller decisions taken so far.
 func (s *Sim) Decisions() int { return s.decisions }
+
+// TaskState reports whether the named task is "parked" (runnable when the
+// controller says so), "blocked" (alive but waiting inside the runtime: channel,
+// select, timer, I/O) or "gone".
+func (s *Sim) TaskState(name string) string {
+	s.mu.Lock()
+	defer s.mu.Unlock()
+	for _, t := range s.parked {
+		if t.Name == name {
+			return "parked"
+		}
+	}
+	for _, t := range s.tasks {
+		if t.Name == name {
+			if t.g == s.running {
+				return "running"
+			}
+			return "blocked"
+		}
+	}
+	return "gone"
+}
